@@ -149,6 +149,70 @@ func projStr(n datamodel.Node) (string, error) {
 	return v.String(), err
 }
 
+// readAll: a full read through EVERY read form (iteration, length, lookups by string / segment / node / index),
+// recursively; the digest is the projection plus the number of lookups that answered.
+func readAll(n datamodel.Node) (string, error) {
+	v, err := model.Project(n)
+	if err != nil {
+		return "", err
+	}
+	lookups := 0
+	var walk func(n datamodel.Node) error
+	walk = func(n datamodel.Node) error {
+		switch n.Kind() {
+		case datamodel.Kind_Map:
+			_ = n.Length()
+			for itr := n.MapIterator(); !itr.Done(); {
+				k, c, err := itr.Next()
+				if err != nil {
+					return err
+				}
+				ks, err := k.AsString()
+				if err != nil {
+					return err
+				}
+				for _, look := range []func() (datamodel.Node, error){
+					func() (datamodel.Node, error) { return n.LookupByString(ks) },
+					func() (datamodel.Node, error) { return n.LookupBySegment(datamodel.PathSegmentOfString(ks)) },
+					func() (datamodel.Node, error) { return n.LookupByNode(basicnode.NewString(ks)) },
+				} {
+					if _, err := look(); err != nil {
+						return fmt.Errorf("lookup of the iterated key %q: %w", ks, err)
+					}
+					lookups++
+				}
+				if !c.IsAbsent() {
+					if err := walk(c); err != nil {
+						return err
+					}
+				}
+			}
+			n.LookupByString("no-such-key-\x00")
+		case datamodel.Kind_List:
+			l := n.Length()
+			for i := int64(0); i < l; i++ {
+				c, err := n.LookupByIndex(i)
+				if err != nil {
+					return err
+				}
+				if _, err := n.LookupBySegment(datamodel.PathSegmentOfInt(i)); err != nil {
+					return err
+				}
+				lookups += 2
+				if err := walk(c); err != nil {
+					return err
+				}
+			}
+			n.LookupByIndex(l)
+		}
+		return nil
+	}
+	if err := walk(n); err != nil {
+		return "", err
+	}
+	return fmt.Sprintf("%s lookups=%d", v.String(), lookups), nil
+}
+
 // freshStruct: a struct type nobody has looked a field up on yet, and a node of it (per mix).
 type freshStruct struct {
 	node datamodel.Node
@@ -169,11 +233,11 @@ func newFreshStruct() *freshStruct {
 func (w *ConcWorld) Do(op string, g int, fresh *freshStruct) (string, error) {
 	switch op {
 	case "read-basic":
-		return projStr(w.basic)
+		return readAll(w.basic)
 	case "read-bind":
-		return projStr(w.bind)
+		return readAll(w.bind)
 	case "read-bind-repr":
-		return projStr(w.bind.Representation())
+		return readAll(w.bind.Representation())
 	case "deep-equal":
 		return fmt.Sprint(datamodel.DeepEqual(w.basic, w.basic2), datamodel.DeepEqual(w.bind, w.bind)), nil
 	case "copy":
@@ -261,9 +325,9 @@ func (w *ConcWorld) Do(op string, g int, fresh *freshStruct) (string, error) {
 		}
 		return "36 ada", nil
 	case "read-gen":
-		return projStr(w.gen)
+		return readAll(w.gen)
 	case "read-gen-repr":
-		return projStr(w.gen.Representation())
+		return readAll(w.gen.Representation())
 	case "encode-gen":
 		var b1 bytes.Buffer
 		if err := dagcbor.Encode(w.gen.Representation(), &b1); err != nil {
